@@ -96,8 +96,8 @@ def tlc_schedules(ctx, cfg_file: str, limit: int | None, rng: random.Random, con
         if not line.startswith(prefix) or line in seen:
             continue
         seen.add(line)
-        cfg, toks = parse_tagged([line], "SCHED")[0]
-        c = {"noise": bool(cfg["noise"]), "exp": cfg["exp"], "login": bool(cfg["login"]), "K": int(cfg["K"]) * 1000}
+        cfg, toks, naddr = parse_tagged([line], "SCHED")[0]
+        c = {"noise": bool(cfg["noise"]), "exp": cfg["exp"], "login": bool(cfg["login"]), "K": int(cfg["K"]) * 1000, "naddr": int(naddr)}
         sch = tokens_to_schedule(toks)
         if connected and len(out) % 2 == 1:
             # what happens above an established session does not depend on the framing: every other
@@ -160,6 +160,7 @@ def attribute(diag_sets: list, rows: list, line: int) -> tuple[set, list]:
 
 # ---------------------------------------------------------------- families
 DEFAULT_CFGS = [
+    dict(noise=False, exp="dev", login=True, K=20000, naddr=2),
     dict(noise=False, exp="dev", login=True, K=20000),
     dict(noise=True, exp="none", login=False, K=20000),
     dict(noise=False, exp="none", login=False, K=20000),
